@@ -262,6 +262,56 @@ class AttrRename(ast.NodeTransformer):
         return n
 
 
+class AddDocstrings(ast.NodeTransformer):
+    """every function without a docstring gets one (maintainers document code; rules must not count a docstring as a statement)"""
+    def visit_FunctionDef(self, n):
+        self.generic_visit(n)
+        if not (n.body and isinstance(n.body[0], ast.Expr) and isinstance(n.body[0].value, ast.Constant) and isinstance(n.body[0].value.value, str)):
+            n.body.insert(0, ast.Expr(ast.Constant("Documented.")))
+        return n
+    visit_AsyncFunctionDef = visit_FunctionDef
+
+
+class Annotate(ast.NodeTransformer):
+    """`x = v` -> `x: "object" = v` for single plain-name / self-attribute targets (not for nonlocal / global names, not in class
+    bodies or at module level, not for tuple targets): maintainers add annotations; Assign and AnnAssign must mean the same"""
+    def __init__(self):
+        self.stack = []
+
+    def _fn(self, n):
+        decl = set()
+        todo = list(n.body)
+        while todo:
+            x = todo.pop()
+            if isinstance(x, (ast.FunctionDef, ast.AsyncFunctionDef, ast.ClassDef, ast.Lambda)):
+                continue
+            if isinstance(x, (ast.Nonlocal, ast.Global)):
+                decl |= set(x.names)
+            todo += list(ast.iter_child_nodes(x))
+        # names annotated must not be used before in the function as nonlocal; also skip names that are parameters? (allowed)
+        self.stack.append(decl)
+        self.generic_visit(n)
+        self.stack.pop()
+        return n
+    visit_FunctionDef = visit_AsyncFunctionDef = _fn
+
+    def visit_ClassDef(self, n):
+        self.stack.append(None)
+        self.generic_visit(n)
+        self.stack.pop()
+        return n
+
+    def visit_Assign(self, n):
+        if not self.stack or self.stack[-1] is None or len(n.targets) != 1:
+            return n
+        t = n.targets[0]
+        if isinstance(t, ast.Name) and t.id not in self.stack[-1]:
+            return ast.AnnAssign(target=t, annotation=ast.Constant("object"), value=n.value, simple=1)
+        if isinstance(t, ast.Attribute) and isinstance(t.value, ast.Name) and t.value.id == "self":
+            return ast.AnnAssign(target=t, annotation=ast.Constant("object"), value=n.value, simple=0)
+        return n
+
+
 def transform(root, kind):
     n = 0
     pda = private_data_attrs(root) if kind == "attrrename" else None
@@ -274,6 +324,10 @@ def transform(root, kind):
             tree = ast.parse(src)
             if kind == "flipcmp":
                 tree = FlipCmp().visit(tree)
+            elif kind == "docstring":
+                tree = AddDocstrings().visit(tree)
+            elif kind == "annotate":
+                tree = Annotate().visit(tree)
             elif kind == "attrrename":
                 tree = AttrRename(pda).visit(tree)
             elif kind == "invertif":
@@ -307,7 +361,7 @@ def transform(root, kind):
 def main():
     kinds = [a for a in sys.argv[1:] if not a.startswith("--")] or ["all"]
     if kinds == ["all"]:
-        kinds = ["unparse", "flipcmp", "invertif", "rename", "rename2", "rename3", "extractcond", "cellify", "earlyreturn"]
+        kinds = ["unparse", "flipcmp", "invertif", "rename", "rename2", "rename3", "extractcond", "cellify", "earlyreturn", "attrrename", "docstring", "annotate"]
     bad = 0
     for kind in kinds:
         tmp = tempfile.mkdtemp(prefix="rxsa_rf_")
